@@ -1111,6 +1111,101 @@ impl Ctx {
     }
 }
 
+/// Does the pull of this script run into the connection cut (so that the client is dead afterwards)?
+fn hits_cut(sc: &Script) -> bool {
+    if sc.open == Open::Cut {
+        return true;
+    }
+    if sc.open != Open::Ok || !sc.puller.tags_ok(sc.zstd, sc.beve) {
+        return false;
+    }
+    for r in &sc.wire {
+        match r {
+            Resp::Chunk(_, false) => continue,
+            Resp::Chunk(_, true) | Resp::Error => return false,
+            Resp::Cut => return true,
+        }
+    }
+    true // the answers run out: the peer closes
+}
+
+impl Ctx {
+    /// `seq <i> <old:H|none> SCRIPT :: SCRIPT :: …`: several pulls through ONE client into ONE destination.
+    /// Each must behave as on a fresh client in the same abstract state: destination = what the previous
+    /// steps left, connection = alive unless an earlier step ran into a cut (then every call fails).
+    fn exec_seq(&mut self, out: &mut Out, idx: &str, old: bool, steps: &[Script], same_resource: bool) {
+        let op = format!("seq {} {} {}", idx, if old { format!("old:{}", hex(OLD)) } else { "none".into() }, steps.iter().map(|s| s.words()).collect::<Vec<_>>().join(" :: "));
+        out.begin(&op);
+        let (base, dir) = self.fresh();
+        let dest = prepare(&dir, if old { Dest::Old } else { Dest::None });
+        let names: Vec<String> = (0..steps.len()).map(|i| if same_resource { base.clone() } else { format!("{base}-{i}") }).collect();
+        let (fake, addr, ws) = (self.fake.clone(), self.fake.addr, if steps[0].ws { self.fake.ws_addr } else { None });
+        let (steps2, dest2, names2) = (steps.to_vec(), dest.clone(), names.clone());
+        let (tx, rx) = std::sync::mpsc::channel();
+        // on its own thread with its own runtime: a call on a dead client must fail, but if it hung it
+        // must not hang the harness (promptness is another property's business)
+        std::thread::spawn(move || {
+            let rt = tokio::runtime::Builder::new_multi_thread().worker_threads(1).enable_all().build().unwrap();
+            let mut res: Vec<(bool, bool, Option<Vec<u8>>, bool)> = vec![];
+            let conn = Conn::open(&rt, steps2[0].puller, addr, ws);
+            for (i, sc) in steps2.iter().enumerate() {
+                fake.register(&names2[i], sc, 0);
+                let r = match &conn {
+                    Ok(c) => catch(|| call_on(&rt, c, sc.puller, &names2[i], &dest2, sc.trailer, Knobs::of(sc), Arc::new(Mutex::new(Seen::default())))),
+                    Err(_) => Ok(Err(rej())),
+                };
+                let panicked = r.is_err();
+                let ok = matches!(r, Ok(Ok(())));
+                res.push((panicked, ok, std::fs::read(&dest2).ok(), tmp_present(&dest2)));
+                let _ = tx.send(res.clone());
+            }
+        });
+        let mut res = vec![];
+        let t0 = Instant::now();
+        while res.len() < steps.len() && t0.elapsed() < Duration::from_secs(40) {
+            if let Ok(r) = rx.recv_timeout(Duration::from_millis(200)) {
+                res = r;
+            }
+        }
+        for n in &names {
+            self.fake.unregister(n);
+        }
+        if res.len() < steps.len() {
+            out.count("seq.did-not-finish(a call on a dead client hung?)");
+            return;
+        }
+        let _ = std::fs::remove_dir_all(&dir);
+        // the abstract state, threaded by the harness from the scripts alone
+        let mut cur: Option<Vec<u8>> = if old { Some(OLD.to_vec()) } else { None };
+        let mut alive = true;
+        let mut line = idx.to_string();
+        for (i, sc) in steps.iter().enumerate() {
+            let (panicked, ok, got, tmp) = &res[i];
+            let exp = if alive { sc.expected_content() } else { None };
+            if let Some(c) = &exp {
+                cur = Some(c.clone());
+            }
+            let p = sc.puller.name();
+            if *ok != exp.is_some() || *got != cur || *tmp {
+                out.oracle_fail(
+                    &format!("commit.seq.{p}.step-differs-from-fresh-client"),
+                    &format!("step {} of a sequence on one client (connection {}): returned {}, destination {:?}, temp file {}; a fresh client in the same state gives {} and destination {:?}", i + 1, if alive { "alive" } else { "dead after an earlier cut" }, if *ok { "Ok" } else { "Err" }, got.as_ref().map(|b| digest(b)), tmp, if exp.is_some() { "Ok" } else { "Err" }, cur.as_ref().map(|b| digest(b))),
+                    &[op.clone()],
+                );
+            }
+            line.push_str(&format!(" | ret {} dest {} tmp {}", if *panicked { "panic" } else if *ok { "ok" } else { "err" }, got.as_ref().map(|b| digest(b)).unwrap_or("absent".into()), *tmp as u8));
+            if alive && hits_cut(sc) {
+                alive = false;
+            }
+        }
+        out.count(&format!("seq.len.{}", steps.len()));
+        if !alive {
+            out.count("seq.with-dead-connection-tail");
+        }
+        out.case(&op, &line, true);
+    }
+}
+
 fn ob_clone(o: &Obs) -> Obs {
     Obs { panicked: false, ok: o.ok, dest: o.dest.clone(), tmp: o.tmp, seen: o.seen.clone() }
 }
@@ -1969,6 +2064,50 @@ fn gen_and_run(args: &Args, out: &mut Out, ctx: &mut Ctx) {
         }
     }
 
+    // (S) sequences: 3-5 pulls through one client into one destination, mixing pullers of the same
+    //     transport, complete and failing streams, rejected verification, a cut in the middle (dead client)
+    let nseq = if thorough { 120 } else { 36 };
+    for j in 0..nseq {
+        let class = j % 3; // 0 blocking, 1 async TCP, 2 async WebSocket
+        let ps: &[Puller] = if class == 0 { &[Puller::File, Puller::Trailer, Puller::Beve, Puller::BeveZst] } else { &[Puller::FileAsync, Puller::VerifiedAsync, Puller::TrailerAsync] };
+        let len = 3 + rng.below(3) as usize;
+        let cut_at = if rng.chance(1, 2) { Some(rng.below(len as u64) as usize) } else { None };
+        let mut steps = vec![];
+        for i in 0..len {
+            let p = *rng.pick(ps);
+            let zstd = p == Puller::Beve || p == Puller::BeveZst || rng.chance(1, 3);
+            let ln = 1 + rng.below(60) as usize;
+            let logical: Vec<u8> = rng.bytes(ln);
+            let sizes = [1 + rng.below(20) as usize, 1 + rng.below(20) as usize];
+            let nch = split_at_sizes(&if zstd { zstd_of(&logical) } else { logical.clone() }, &sizes).len();
+            let fault = if cut_at == Some(i) {
+                Some((rng.below(nch as u64 + 1) as usize, Resp::Cut))
+            } else if rng.chance(1, 3) {
+                Some((rng.below(nch as u64 + 1) as usize, Resp::Error))
+            } else {
+                None
+            };
+            let mut sc = make_script(p, zstd, &logical, &sizes, fault, rng.chance(1, 2));
+            sc.ws = class == 2;
+            sc.trailer = if p.has_trailer() { rng.below(ln as u64 + 2) as usize } else { 0 };
+            sc.verify_ok = !rng.chance(1, 4);
+            if rng.chance(1, 8) {
+                sc.open = Open::Err;
+            }
+            if cut_at == Some(i) && rng.chance(1, 4) {
+                sc.open = Open::Cut;
+            }
+            sc.style = rng.next() & 0x7fff;
+            steps.push(sc);
+        }
+        let old = rng.chance(1, 2);
+        for sc in steps.iter_mut() {
+            sc.dest = if old { Dest::Old } else { Dest::None };
+        }
+        let same = rng.chance(1, 2);
+        ctx.exec_seq(out, &next("q"), old, &steps, same);
+    }
+
     // (B) random scripts: sizes around io::copy's 8 KiB buffer, empty chunks, mixed write sizes for TrailerHold
     let nrand = if thorough { 1500 } else { 260 };
     for _ in 0..nrand {
@@ -2362,6 +2501,24 @@ fn replay(ops: Vec<String>, out: &mut Out, ctx: &mut Ctx) {
                             break;
                         }
                     }
+                }
+            }
+            "seq" => {
+                let mut steps = vec![];
+                let mut rest: Vec<String> = w[3..].iter().map(|x| x.to_string()).collect();
+                while !rest.is_empty() {
+                    let rw: Vec<&str> = rest.iter().map(|x| x.as_str()).collect();
+                    match Script::parse(&rw) {
+                        Some((sc, after)) => {
+                            steps.push(sc);
+                            rest = after;
+                        }
+                        None => break,
+                    }
+                }
+                if !steps.is_empty() {
+                    ctx.exec_seq(out, &idx, w[2].starts_with("old"), &steps, false);
+                    ctx.exec_seq(out, &format!("{idx}b"), w[2].starts_with("old"), &steps, true);
                 }
             }
             "sibling" => {
